@@ -538,6 +538,29 @@ func Run(c *evid.Ctx) {
 		})
 	}
 	dist.Finish(c, "C08")
+	// interference between two uses of the step codec (typical instance of a type vs the typical
+	// instance of the next type)
+	for i, st := range stepTypes {
+		a, _ := build(func() interface{} { return st.mk() }, 1, nil)
+		nx := stepTypes[(i+1)%len(stepTypes)]
+		b, _ := build(func() interface{} { return nx.mk() }, 1, nil)
+		atomic.AddInt64(&k.evals, 1)
+		packs.Interference(c, "C08", st.name, a, b,
+			func(o interface{}) []byte {
+				bs, err := encStep(o.(step.Step))
+				if err != nil {
+					return nil
+				}
+				return bs
+			},
+			func(bs []byte) interface{} {
+				d, err := decStep(gio.NewDataInputX(bs), a.(step.Step))
+				if err != nil {
+					return nil
+				}
+				return d
+			})
+	}
 	c.Count("evaluations", k.evals)
 	c.Count("distinct_nontrivial", k.nontriv)
 	c.Cov["step_type_variants"] = len(stepTypes)
